@@ -361,7 +361,7 @@ def NOINT_POSITIVE(start, is_extensible):
         return None
     if is_extensible:
         return PAT('(?<!\\d)\\+?')
-    return PAT('\\B\\+?')
+    return PAT('\\B\\+|(?<!\\+|-)\\B')      # the sign rule of PositiveInteger: an explicit '+', or no sign at all in front
 
 
 def NOINT_NEGATIVE(start, is_extensible):
